@@ -11,7 +11,7 @@ run_one() {
   prop=$(echo "$exp" | awk '{print $1}'); obl=$(echo "$exp" | awk '{print $2}')
   out=$(tools/mutcheck.sh "$p" "$prop" 2>&1); rc=$?
   if [ "$kind" = mutants ]; then
-    if [ $rc -eq 1 ] && echo "$out" | grep -F "obligation=$obl " | grep -q "VIOLATION property=$prop "; then echo "ok   caught  $(basename $p) -> $obl";
+    if [ $rc -eq 1 ] && echo "$out" | grep -F "obligation=$obl " | grep -q "VIOLATION property=$prop "; then rep=confirmed; echo "$out" | grep -F "obligation=$obl " | grep -q "no-failing-input-found" && rep=no-input; echo "ok   caught  $(basename $p) -> $obl [replay: $rep]";
     else echo "MISS        $(basename $p) rc=$rc expected $prop $obl"; echo "$out" | tail -4 | sed 's/^/       /'; fail=1; fi
   else
     bad=0
